@@ -25,6 +25,8 @@ pub enum Value {
 #[derive(Debug, Clone)]
 pub enum Op {
     Write { p: B, data: B },
+    /// OpenOptions (create + append | create + write without truncate) followed by Write::write_all
+    WriteVia { p: B, data: B, append: bool },
     Read { p: B, as_string: bool },
     Copy { src: B, dst: B, via_handle: bool },
     Cda { p: B },
@@ -36,6 +38,8 @@ impl Op {
     pub fn name(&self) -> &'static str {
         match self {
             Op::Write { .. } => "write",
+            Op::WriteVia { append: true, .. } => "append_write_all",
+            Op::WriteVia { append: false, .. } => "overwrite_write_all",
             Op::Read { .. } => "read",
             Op::Copy { .. } => "copy",
             Op::Cda { .. } => "create_dir_all",
@@ -45,7 +49,7 @@ impl Op {
     }
     pub fn main_path(&self) -> &B {
         match self {
-            Op::Write { p, .. } | Op::Read { p, .. } | Op::Cda { p } | Op::Rmall { p } | Op::Readdir { p } => p,
+            Op::Write { p, .. } | Op::WriteVia { p, .. } | Op::Read { p, .. } | Op::Cda { p } | Op::Rmall { p } | Op::Readdir { p } => p,
             Op::Copy { dst, .. } => dst,
         }
     }
@@ -53,6 +57,13 @@ impl Op {
         match self {
             Op::Write { p, data } => format!(
                 "{{\"op\":\"write\",\"path\":{},\"path_len\":{},\"data_len\":{}}}",
+                vh::jb(p),
+                p.len(),
+                data.len()
+            ),
+            Op::WriteVia { p, data, append } => format!(
+                "{{\"op\":{},\"path\":{},\"path_len\":{},\"data_len\":{}}}",
+                if *append { "\"append_write_all\"" } else { "\"overwrite_write_all\"" },
                 vh::jb(p),
                 p.len(),
                 data.len()
@@ -394,6 +405,28 @@ pub fn model_apply(pre: &Snap, rabs: &[u8], op: &Op) -> Result<Expect, String> {
                 prior: prior_class(pre, rabs, p, &old, data.len()),
                 target: key,
                 bytes: Some(data.clone()),
+                created: 0,
+            })
+        }
+        Op::WriteVia { p, data, append } => {
+            let (key, old) = file_target(pre, rabs, p)?;
+            let mut content = old.clone().unwrap_or_default();
+            if *append {
+                content.extend_from_slice(data);
+            } else if data.len() >= content.len() {
+                content = data.clone();
+            } else {
+                content[..data.len()].copy_from_slice(data);
+            }
+            let mut snap = base_exp(pre);
+            let mode = pre.get(&key).map(|(_, m)| *m);
+            snap.insert(key.clone(), (Node::File(content.clone()), mode));
+            Ok(Expect {
+                snap,
+                value: Value::Unit,
+                prior: prior_class(pre, rabs, p, &old, data.len()),
+                target: key,
+                bytes: Some(content),
                 created: 0,
             })
         }
